@@ -1,6 +1,5 @@
 package vsim
 
-
 import (
 	"fmt"
 	"time"
@@ -54,6 +53,26 @@ func runC02(c *Ctx) {
 			ops[i].D = time.Duration(g.Range(1, 3000)) * time.Millisecond
 		}
 	}
+	// In a quarter of the runs a scripted epilogue at fixed virtual times: a
+	// callee with a tiny queue takes an invocation, stops reading, has its
+	// queue filled with events, and the caller then cancels (any mode).
+	blockedCallee := -1
+	if g.Chance(1, 4) {
+		x := g.Intn(ns)
+		y := (x + 1 + g.Intn(ns-1)) % ns
+		blockedCallee = x
+		t0 := time.Duration(g.Range(20, 60)) * time.Second
+		at := func(s int, d time.Duration) TOp { return TOp{Sess: s, Kind: tSleep, Until: t0 + d} }
+		ops = append(ops,
+			at(x, 0), TOp{Sess: x, Kind: tResume}, TOp{Sess: x, Kind: tSub, URI: "t.fill", WaitAck: true}, TOp{Sess: x, Kind: tReg, URI: "p.blocked", WaitAck: true},
+			at(y, time.Second), TOp{Sess: y, Kind: tResume}, TOp{Sess: y, Kind: tCall, URI: "p.blocked", Opts: wamp.Dict{}},
+			at(x, 2*time.Second), TOp{Sess: x, Kind: tStall},
+			at(y, 3*time.Second))
+		for i := g.Range(0, 5); i > 0; i-- {
+			ops = append(ops, TOp{Sess: y, Kind: tPub, URI: "t.fill", Opts: wamp.Dict{}})
+		}
+		ops = append(ops, TOp{Sess: y, Kind: tCancel, Mode: g.Pick("kill", "kill", "killnowait", "skip", "")})
+	}
 	c.Res.NOps = len(ops)
 	c.Res.Sample = opsSample(ops, c, 0, 30)
 	c.Res.Shape = fmt.Sprintf("%x", hashStr(c.Res.Sample)^c.Spec.SchedSeed)
@@ -65,8 +84,16 @@ func runC02(c *Ctx) {
 			// a callee that cannot be interrupted and has no progressive results
 			hello = wamp.Dict{"roles": wamp.Dict{"caller": wamp.Dict{"features": wamp.Dict{"call_canceling": true, "progressive_call_results": true}}, "callee": wamp.Dict{}, "publisher": wamp.Dict{}, "subscriber": wamp.Dict{}}}
 		}
-		s := w.NewSess(fmt.Sprintf("s%d", i), "r1", g.Bool(), 64, hello)
+		// small queues make "the caller cannot take the RESULT right now" reachable
+		qsize := []int{64, 64, 8, 2}[g.Intn(4)]
+		if i == blockedCallee {
+			qsize = g.Range(1, 3)
+		}
+		s := w.NewSess(fmt.Sprintf("s%d", i), "r1", g.Bool(), qsize, hello)
 		cl := NewTClient(s, behs[g.Intn(len(behs))], time.Duration([]int{1, 50, 2000, 40000}[g.Intn(4)])*time.Millisecond)
+		if i == blockedCallee {
+			cl.Beh = BehIgnore
+		}
 		if !s.Join() {
 			c.Res.Tooling = "traffic session could not join"
 			return
@@ -140,6 +167,13 @@ func runC02(c *Ctx) {
 				if callee.Beh == BehTwice || callee.Beh == BehForeign {
 					feats++
 				}
+				if killOutstanding && why == "" && !inv.Interrupted && !(callee.Left || callee.CliClosed || callee.RecvClosed) {
+					// everybody has been reading again for five minutes: an
+					// INTERRUPT that was queued would have arrived. A callee
+					// that could not be interrupted makes kill degrade to skip.
+					why = "the caller cancelled with mode 'kill' and no INTERRUPT ever reached the callee (kill degrades to skip when the callee cannot be interrupted)"
+					c.Probe("obligation_kill_degraded")
+				}
 			}
 			if feats >= 2 {
 				interesting++
@@ -151,6 +185,36 @@ func runC02(c *Ctx) {
 			st := states[cl][cr.Req]
 			if st == nil || st.finals == 0 {
 				c.Violf("caller %s never received a final reply for call %s to %s although %s", cl.Name, cr.Tag, cr.Proc, why)
+			}
+		}
+	}
+	// A caller that stopped reading for a while: replies sent with a single
+	// attempt may be lost to it, but a RESULT is held back and retried for the
+	// result-retry period (documented as one minute). So if the callee's final
+	// YIELD was taken by the router, and the caller was reading again - for
+	// good - within half that period, the RESULT must have reached it.
+	for _, cl := range clients {
+		if cl.Left || cl.CliClosed || cl.RecvClosed || !everStalled[cl] || len(cl.ResumeAt) == 0 || len(cl.StallAt) > len(cl.ResumeAt) {
+			continue
+		}
+		lastResume := cl.ResumeAt[len(cl.ResumeAt)-1]
+		for _, cr := range cl.Calls {
+			if cr.Tag == "meta" || len(cr.Cancels) > 0 || cr.Timeout > 0 || cr.Proc == "p.none" {
+				continue
+			}
+			for _, ce := range clients {
+				if ce.Left || ce.CliClosed || ce.RecvClosed || ce == cl {
+					continue
+				}
+				for _, iv := range ce.Invs {
+					if iv.Tag != cr.Tag || !iv.Final || !iv.ByYield || lastResume > iv.FinalT+30*time.Second {
+						continue
+					}
+					c.Probe("obligation_result_retry")
+					if st := states[cl][cr.Req]; st == nil || st.finals == 0 {
+						c.Violf("caller %s never received the RESULT of call %s to %s: the callee's final YIELD was taken at %v, the caller (stalled before) was reading again from %v on", cl.Name, cr.Tag, cr.Proc, iv.FinalT, lastResume)
+					}
+				}
 			}
 		}
 	}
